@@ -282,3 +282,29 @@ func TestWalkerAndTsigSelfConsistency(t *testing.T) {
 		t.Errorf("SIG(0) accepted after expiration")
 	}
 }
+
+func TestNonceSigner(t *testing.T) {
+	data := []byte("short r")
+	for _, alg := range []uint8{AlgECDSAP256, AlgECDSAP384} {
+		key, _ := ECDSAKeyFromSeed(alg, []byte{9, 9})
+		for i := 0; i < ShortXCount(alg); i++ {
+			k := ShortXNonce(alg, i)
+			h, _ := hashFor(alg)
+			der, err := NonceSigner{key, k}.Sign(nil, digest(h, data), h)
+			if err != nil {
+				t.Fatal(err)
+			}
+			r, s, err := parseDERSig(der)
+			if err != nil {
+				t.Fatal(err)
+			}
+			_, n := curveFor(alg)
+			if n-len(r.Bytes()) < 2 {
+				t.Errorf("alg %d nonce %d: r has %d leading zero octets, want >= 2", alg, i, n-len(r.Bytes()))
+			}
+			if err := VerifySig(alg, &key.PublicKey, data, append(fixed(r, n), fixed(s, n)...)); err != nil {
+				t.Errorf("alg %d nonce %d: %v", alg, i, err)
+			}
+		}
+	}
+}
